@@ -34,6 +34,11 @@ class Prop(Bip32Prop):
                      "n-k+1": lambda kp: (N - kp + 1), "n-k-1": lambda kp: (N - kp - 1) % N, "0": lambda kp: 0, "n-1": lambda kp: N - 1}[name]
                 stub = self.stub_for_last_step(st, path, rng, il=f)
                 cases.append({"kind": "DeriveRaw", "start": st, "path": path, "stub": stub, "note": "prv IL=" + name})
+                if rep == 0:
+                    # the same fault injected while the child is produced by generate_children (first element of the interval)
+                    hi = min(path[-1] + 3, 2 ** 32) if path[-1] != H - 1 else H + 2
+                    cases.append({"kind": "DeriveRaw", "start": st, "path": path, "stub": stub, "via": {"gen": [path[-1], hi]},
+                                  "note": "prv IL=%s via generate_children" % name})
         # public derivation: start = public view of a known scalar
         for rep in range(reps):
             for j, name in enumerate(ils):
@@ -42,8 +47,12 @@ class Prop(Bip32Prop):
                       "depth": rng.choice([0, 3]), "index": 0, "testnet": False, "pfpr": None}
                 il = {"n": N, "n+1": N + 1, "max": 2 ** 256 - 1, "n-k": N - k, "n-k+1": N - k + 1, "n-k-1": (N - k - 1) % N, "0": 0, "n-1": N - 1}[name]
                 il = il % (2 ** 256)
-                cases.append({"kind": "DeriveRaw", "start": st, "path": [rng.randrange(0, H)],
+                tgt = rng.randrange(0, H - 4)
+                cases.append({"kind": "DeriveRaw", "start": st, "path": [tgt],
                               "stub": {"0": (il.to_bytes(32, "big") + ir).hex()}, "note": "pub IL=" + name})
+                if rep == 0:
+                    cases.append({"kind": "DeriveRaw", "start": st, "path": [tgt], "via": {"gen": [tgt, tgt + 3]},
+                                  "stub": {"0": (il.to_bytes(32, "big") + ir).hex()}, "note": "pub IL=%s via generate_children" % name})
         # hardened from public
         st = {"prv": False, "key": pubkey_of_scalar(5).hex(), "chain": "11" * 32, "depth": 0, "index": 0, "testnet": False, "pfpr": None}
         cases.append({"kind": "DeriveRaw", "start": st, "path": [H]})
